@@ -6,6 +6,7 @@ VER_FUNCS = ["secp256k1_whitelist_verify", "secp256k1_scalar_set_b32", "secp256k
 # loop contract of the scalar loop of whitelist_verify (engine-supplied, no /repo edit).  The ghost names are
 # harness globals: a ring position, whether the scalar at that position is zero / >= n, and its parsed value.
 WL_VERIFY_LOOP = {"secp256k1_whitelist_verify": {"for (i = 0; i < sig->n_keys; i++)": {
+    "assigns": "i, __CPROVER_object_whole(s)",
     "invariants": "i <= sig->n_keys && (verif_wl_bad ==> i <= verif_wl_gi) && (verif_wl_gi < i ==> (s[verif_wl_gi].d[0] == verif_wl_sx.d[0] && s[verif_wl_gi].d[1] == verif_wl_sx.d[1] && s[verif_wl_gi].d[2] == verif_wl_sx.d[2] && s[verif_wl_gi].d[3] == verif_wl_sx.d[3]))",
     "decreases": "sig->n_keys - i"}}}
 UNITS = [
@@ -18,9 +19,18 @@ UNITS = [
     U("C16.sig_roundtrip", ["C16"], CODEC, "h_wl_roundtrip", replace=["memcpy"],
       functions=["secp256k1_whitelist_signature_parse", "secp256k1_whitelist_signature_serialize"], timeout=900, min_obl=20, unwind=10,
       note="serialize(parse(b)) == b for every accepted b (ghost byte index)"),
-    U("C16.verify_gate_b15", ["C16", "C07"], VER, "h_wl_verify", replace=VER_REPL, assumed=["secp256k1_borromean_verify"], defs=["EL_BOUND=15"],
-      functions=VER_FUNCS, timeout=900, min_obl=30, unwind=34, bounded="n_keys<=15",
-      note="scalar loop unwound for signatures of at most 15 keys: gives a concrete counterexample (ring position, bytes) when a gate is broken"),
+    U("C16.sign_key_gate", ["C16"], "harness/C16/tweaked_privkey.c", "h_wl_tweaked_privkey",
+      replace=["secp256k1_ecmult_gen", "secp256k1_whitelist_hash_pubkey", "secp256k1_scalar_mul"],
+      assumed=["secp256k1_ecmult_gen", "secp256k1_whitelist_hash_pubkey", "secp256k1_scalar_mul"],
+      functions=["secp256k1_whitelist_compute_tweaked_privkey", "secp256k1_scalar_set_b32", "secp256k1_scalar_add", "secp256k1_scalar_is_zero"], timeout=600, min_obl=20, unwind=34,
+      note="the signing-key computation of whitelist_sign for all (online, summed) 32-byte keys"),
+    U("C16.verify_nonempty", ["C16"], "harness/C16/nonempty.c", "h_wl_nonempty", replace=VER_REPL, assumed=["secp256k1_borromean_verify"],
+      functions=["secp256k1_whitelist_verify"], timeout=600, min_obl=10, unwind=34, replay=True,
+      closed_by="n_keys = 0 makes the scalar loop run 0 times on every path that reaches it (unwinding assertion)",
+      note="finding F1: passes since /repo commit 07da080; native replay constructs the forged e0 = SHA256(SHA256(ser33(W))) and runs the real function"),
+    U("C16.verify_gate_b8", ["C16", "C07"], VER, "h_wl_verify", replace=VER_REPL, assumed=["secp256k1_borromean_verify"], defs=["EL_BOUND=8"],
+      functions=VER_FUNCS, timeout=900, min_obl=30, unwind=34, bounded="n_keys<=8",
+      note="scalar loop unwound for signatures of at most 8 keys: gives a concrete counterexample (ring position, bytes) when a gate is broken"),
     U("C16.verify_gate", ["C16", "C07"], VER, "h_wl_verify", replace=VER_REPL, assumed=["secp256k1_borromean_verify"],
       loop_contracts=WL_VERIFY_LOOP, functions=VER_FUNCS, timeout=1800, min_obl=30, unwind=34, tier="thorough",
       closed_by="loop contract on the scalar loop (engine-supplied, no /repo edit): invariant with ghost ring position, decreases clause; be256 spec loop unwound",
